@@ -28,7 +28,9 @@ PID = 'C20'
 LEAN_MODULES = ['ThermoVerif.Props.C20']
 RULE = ('1–3 helper calls per case, each on fresh real streams over the first n (1–6) of Water, Ethanol, Methanol, '
         'Glycerol, Octane, Propanol with dyadic flows (k·2^-e), outlets pre-filled with material in ~70 % of the '
-        'calls; split vectors j/64; K = 2^e·(1+j/8) within 1e-3…1e3 (all-below-1, all-above-1, exactly-1 and mixed '
+        'calls; 10 % of the cases are holder histories: ONE MultiStream passed as multi_stream= to 2–5 successive lle '
+        '(or vle) calls with different feeds / efficiencies / top chemicals, and single calls get a pre-filled holder in '
+        '~25 % of the lle/vle ops; split vectors j/64; K = 2^e·(1+j/8) within 1e-3…1e3 (all-below-1, all-above-1, exactly-1 and mixed '
         'sets), forced top/bottom chemicals disjoint from the equilibrium set; moisture j/64 in (0,0.95); '
         'efficiencies j/16; diagonally dominant dyadic inlet matrices for the balance solver; a 12 % share of '
         'out-of-domain K (negative) exercises the clipping / InfeasibleRegion branches.  Non-trivial = a call that '
@@ -36,7 +38,9 @@ RULE = ('1–3 helper calls per case, each on fresh real streams over the first 
 ASSUMPTIONS = [
     'Rachford–Rice phase fraction (value returned by compute_phase_fraction) is a parameter: theorems hold for every value; '
     'the 2-component closed form and the dispatch of binary_phase_fraction.phase_fraction are modelled and compared',
-    'rows left by MultiStream.lle / .vle are parameters; monitored hypothesis: the rows sum to the feed (C03)',
+    'rows left by MultiStream.lle / .vle are parameters; monitored hypotheses: the rows the equilibrium routine is entered '
+    'with are exactly the feed in `l` and nothing elsewhere whatever the multi_stream holder held (load=), and the rows it '
+    'leaves sum to the feed (hyp=, C03)',
     'liquid densities compared by the lle wrapper are parameters',
     'model arithmetic is exact (Rat); float results are compared with rtol 1e-9 / atol 1e-11, mix_and_split and '
     'phase_split exactly; cases where an un-clipped equilibrium flow is within 1e-9 (relative) of a clip bound are '
@@ -94,8 +98,11 @@ def setup():
             orig = cls.__call__
             def mk(orig, key):
                 def __call__(self, *a, **k):
+                    im = self._imol
+                    # rows the equilibrium routine is entered with (= what the wrapper loaded into its holder)
+                    REC[key + '_in'] = {ph: [float(x) for x in im[ph].to_array()] for ph in im.phases}
                     r = orig(self, *a, **k)
-                    REC[key] = self._imol
+                    REC[key] = im
                     return r
                 return __call__
             cls.__call__ = mk(orig, key)
@@ -153,6 +160,7 @@ class Out:
     def __init__(self):
         self.model_in, self.outs, self.failures, self.tags = [], [], [], []
         self.nontrivial = False
+        self.holders = {}      # (kind, n) -> the MultiStream passed as multi_stream= by every `holder` op of the case
 
     def emit(self, line, ans):
         self.model_in.append(line); self.outs.append(ans)
@@ -387,6 +395,34 @@ def op_pt(d, o):
                   + (':stale' if d.get('bot0') else ''))
 
 
+def get_holder(o, kind, d):
+    """the multi_stream= argument of this call and its rows before the call.
+    `holder`: one MultiStream per (kind, n) reused by every such op of the case (what a unit does: it keeps one
+    MultiStream and passes it at every simulation), optionally created already holding material (`holder0`);
+    `use_ms`: a fresh one for this call only, also optionally pre-filled."""
+    n = d['n']
+    phases = 'lL' if kind == 'lle' else 'lg'
+    other = 'L' if kind == 'lle' else 'g'
+    def fresh():
+        ms = tmo.MultiStream(None, phases=phases, thermo=THERMO[n])
+        h0 = d.get('holder0')
+        if h0:
+            ms.imol[other] = np.array(h0[0], float); ms.imol['l'] = np.array(h0[1], float)
+        return ms
+    if d.get('holder'):
+        key = (kind, n)
+        if key not in o.holders: o.holders[key] = fresh()
+        ms = o.holders[key]
+    elif d.get('use_ms'):
+        ms = fresh()
+    else:
+        return None, [], []
+    if tuple(sorted(ms.phases)) != tuple(sorted(phases)):      # an earlier call re-phased it: start over
+        ms = fresh()
+        if d.get('holder'): o.holders[(kind, n)] = ms
+    return ms, [float(x) for x in ms.imol[other].to_array()], [float(x) for x in ms.imol['l'].to_array()]
+
+
 def liquid_rho(n, row, phase, T, P):
     s = tmo.Stream(None, thermo=THERMO[n], T=T, P=P, phase=phase)
     s.mol[:] = np.array(row, float)
@@ -396,60 +432,74 @@ def liquid_rho(n, row, phase, T, P):
 def op_lle(d, o):
     n, eff, tc = d['n'], d['eff'], d.get('tc')
     feed0 = list(d['feed'])
-    def call(top0, bot0, use_ms):
+    def call(top0, bot0, ms):
         REC.clear()
         feed, top, bottom = mk(n, feed0), mk(n, top0), mk(n, bot0)
-        ms = tmo.MultiStream(None, phases='lL', thermo=THERMO[n]) if use_ms else None
         kw = {}
         if tc is not None: kw['top_chemical'] = CHEMS[tc]
         sep.lle(feed, top, bottom, efficiency=eff, multi_stream=ms, **kw)
         return arr(top), arr(bottom), feed, ms
-    t, b, feed, ms = call(d.get('top0'), d.get('bot0'), d.get('use_ms'))
+    ms, h0L, h0l = get_holder(o, 'lle', d)
+    stale_holder = any(h0L) or any(h0l)
+    t, b, feed, ms = call(d.get('top0'), d.get('bot0'), ms)
     im = REC.get('lle')
     if im is None: return
+    ld = REC.get('lle_in', {})
     rL = [float(x) for x in im['L'].to_array()]
     rl = [float(x) for x in im['l'].to_array()]
     rho_l = liquid_rho(n, rl, 'l', feed.T, feed.P)
     rho_L = liquid_rho(n, rL, 'L', feed.T, feed.P)
     fr = lambda x: 'none' if x is None else frac(float(x))
-    o.emit(f'lle n={n} feed={V(feed0)} L={V(rL)} l={V(rl)} tc={0 if tc is None else 1} rhol={fr(rho_l)} rhoL={fr(rho_L)} eff={frac(eff)}',
-           f'lle top={V(t)} bot={V(b)} hyp=1')
-    what = f'(efficiency={eff}, top_chemical={tc})'
+    o.emit(f'lle n={n} feed={V(feed0)} L={V(rL)} l={V(rl)} tc={0 if tc is None else 1} rhol={fr(rho_l)} rhoL={fr(rho_L)} '
+           f'eff={frac(eff)} h0L={V(h0L)} h0l={V(h0l)} ldL={V(ld.get("L", []))} ldl={V(ld.get("l", []))}',
+           f'lle top={V(t)} bot={V(b)} hyp=1 load=1')
+    what = f'(efficiency={eff}, top_chemical={tc}, multi_stream={"reused" if d.get("holder") else "fresh" if ms is not None else None}' \
+           f'{", holding material from a previous call" if stale_holder else ""})'
     check_balance(o, 'lle', feed0, [t, b], what)
     check_nonneg(o, 'lle', [t, b], what)
     if arr(feed) != feed0: o.fail('lle:feed-changed', 'lle changed its feed')
-    if d.get('top0') or d.get('bot0'):
-        t2, b2, _, _ = call(None, None, d.get('use_ms'))
+    if (d.get('top0') or d.get('bot0')) and not d.get('holder') and not stale_holder:
+        # same call with empty outlets.  Not done when the holder has a history: the equilibrium routine starts from
+        # the K / phi it kept from the previous call and may stop at another point within its own resolution (C15's
+        # subject); what C20 requires of a reused holder is the balance and non-negativity above and `load=1`.
+        fresh = tmo.MultiStream(None, phases='lL', thermo=THERMO[n]) if ms is not None else None
+        t2, b2, _, _ = call(None, None, fresh)
         check_stale(o, 'lle', [t, b], [t2, b2], what)
     if any(t) and any(b): o.nontrivial = True
-    o.tags.append('lle' + (':eff' if eff < 1 else '') + (':tc' if tc is not None else ''))
+    o.tags.append('lle' + (':eff' if eff < 1 else '') + (':tc' if tc is not None else '')
+                  + (':holder-reused' if d.get('holder') else '') + (':holder-stale' if stale_holder else ''))
 
 
 def op_vle(d, o):
     n = d['n']
     feed0 = list(d['feed'])
-    def call(v0, l0):
+    def call(v0, l0, ms):
         REC.clear()
         feed, vap, liq = mk(n, feed0), mk(n, v0, phase=d.get('vphase0', 'l')), mk(n, l0)
-        ms = tmo.MultiStream(None, phases='lg', thermo=THERMO[n]) if d.get('use_ms') else None
         sep.vle(feed, vap, liq, multi_stream=ms, **d['spec'])
         return arr(vap), arr(liq), vap.phase, liq.phase, feed
-    v, l, vp, lp, feed = call(d.get('top0'), d.get('bot0'))
+    ms, h0g, h0l = get_holder(o, 'vle', d)
+    stale_holder = any(h0g) or any(h0l)
+    v, l, vp, lp, feed = call(d.get('top0'), d.get('bot0'), ms)
     im = REC.get('vle')
     if im is None: return
+    ld = REC.get('vle_in', {})
     rg = [float(x) for x in im['g'].to_array()]
     rl = [float(x) for x in im['l'].to_array()]
-    o.emit(f'vle n={n} feed={V(feed0)} g={V(rg)} l={V(rl)}', f'vle vap={V(v)} liq={V(l)} hyp=1')
-    what = f'({d["spec"]})'
+    o.emit(f'vle n={n} feed={V(feed0)} g={V(rg)} l={V(rl)} h0g={V(h0g)} h0l={V(h0l)} ldg={V(ld.get("g", []))} ldl={V(ld.get("l", []))}',
+           f'vle vap={V(v)} liq={V(l)} hyp=1 load=1')
+    what = f'({d["spec"]}, multi_stream={"reused" if d.get("holder") else "fresh" if ms is not None else None}' \
+           f'{", holding material from a previous call" if stale_holder else ""})'
     check_balance(o, 'vle', feed0, [v, l], what)
     check_nonneg(o, 'vle', [v, l], what)
     if (vp, lp) != ('g', 'l'):
         o.fail('vle:phase', f'outlet phases are {(vp, lp)}, expected ("g", "l")')
-    if d.get('top0') or d.get('bot0'):
-        v2, l2, _, _, _ = call(None, None)
+    if (d.get('top0') or d.get('bot0')) and not d.get('holder') and not stale_holder:
+        fresh = tmo.MultiStream(None, phases='lg', thermo=THERMO[n]) if ms is not None else None
+        v2, l2, _, _, _ = call(None, None, fresh)
         check_stale(o, 'vle', [v, l], [v2, l2], what)
     if any(v) and any(l): o.nontrivial = True
-    o.tags.append('vle')
+    o.tags.append('vle' + (':holder-reused' if d.get('holder') else '') + (':holder-stale' if stale_holder else ''))
 
 
 def op_ps(d, o):
@@ -662,6 +712,35 @@ def gen_K(rng, m):
     return K
 
 
+def holder_rows(rng, n, p=0.6):
+    """rows (other, l) a multi_stream holder already holds when it is first passed"""
+    return [flows(rng, n, 0.3), flows(rng, n, 0.3, at_least_one=False)] if rng.random() < p else None
+
+
+VLE_SPECS = lambda rng: rng.choice([dict(V=rng.choice([0.0, 0.25, 0.5, 0.75, 1.0]), P=101325.0),
+                                    dict(T=rng.choice([300.0, 345.0, 360.0, 372.0, 400.0, 520.0]), P=101325.0),
+                                    dict(V=0.5, T=rng.choice([330.0, 360.0]))])
+
+
+def gen_holder_history(rng):
+    """one MultiStream holder passed as multi_stream= to 2–5 successive lle (or vle) calls with different feeds,
+    efficiencies, top chemicals / specifications: the holder arrives non-empty from the previous call"""
+    n = rng.choice([2, 3, 3, 4, 5, 6])
+    kind = 'lle' if rng.random() < 0.6 else 'vle'
+    ops = []
+    for j in range(rng.randrange(2, 6)):
+        feed = flows(rng, n, 0.2)
+        d = dict(n=n, feed=feed, holder=1, top0=stale(rng, n, 0.4), bot0=stale(rng, n, 0.4))
+        if j == 0: d['holder0'] = holder_rows(rng, n, 0.5)
+        if kind == 'lle':
+            d['tc'] = rng.choice([None, None] + [i for i in range(n) if feed[i]])
+            d['eff'] = rng.choice([1.0, 1.0, rng.randrange(0, 17) / 16])
+        else:
+            d['spec'] = VLE_SPECS(rng); d['vphase0'] = rng.choice('lg')
+        ops.append(kind + ' ' + json.dumps(d))
+    return ops
+
+
 def gen_op(rng):
     r = rng.random()
     n = rng.choice([1, 2, 2, 3, 3, 4, 5, 6, 6])
@@ -721,14 +800,14 @@ def gen_op(rng):
         tc = rng.choice([None, None] + [i for i in range(n) if feed[i]])
         eff = rng.choice([1.0, 1.0, rng.randrange(0, 17) / 16])
         return 'lle ' + json.dumps(dict(n=n, feed=feed, tc=tc, eff=eff, use_ms=int(rng.random() < 0.4),
-                                        top0=stale(rng, n), bot0=stale(rng, n)))
+                                        holder0=holder_rows(rng, n), top0=stale(rng, n), bot0=stale(rng, n)))
     if r < 0.75:                                      # vle wrapper
         feed = flows(rng, n, 0.2)
         spec = rng.choice([dict(V=rng.choice([0.0, 0.25, 0.5, 0.75, 1.0]), P=101325.0),
                            dict(T=rng.choice([300.0, 345.0, 360.0, 372.0, 400.0, 520.0]), P=101325.0),
                            dict(V=0.5, T=rng.choice([330.0, 360.0]))])
         return 'vle ' + json.dumps(dict(n=n, feed=feed, spec=spec, use_ms=int(rng.random() < 0.4),
-                                        vphase0=rng.choice('lg'), top0=stale(rng, n), bot0=stale(rng, n)))
+                                        holder0=holder_rows(rng, n), vphase0=rng.choice('lg'), top0=stale(rng, n), bot0=stale(rng, n)))
     if r < 0.83:                                      # phase_split
         phases = rng.choice(['gl', 'lL', 'gls', 'glL', 'ls'])
         rows = [flows(rng, n, 0.3, at_least_one=False) for _ in phases]
@@ -757,7 +836,10 @@ def gen_op(rng):
 def generate(rng, tier, index, nworkers):
     ncases = max(1, budget(tier)['cases'] // nworkers)
     for _ in range(ncases):
-        yield Case([gen_op(rng) for _ in range(rng.randrange(1, 4))], {})
+        if rng.random() < 0.10:
+            yield Case(gen_holder_history(rng), {})
+        else:
+            yield Case([gen_op(rng) for _ in range(rng.randrange(1, 4))], {})
 
 
 def corpus():
@@ -782,6 +864,12 @@ def corpus():
               'am ' + j(dict(n=4, R=[1, 0, 0, 20], P=[2, 0, 0, 0.5], k=0, mode='mass', mc=0.5, strict=False)),
               'am ' + j(dict(n=4, R=[1, 0, 0, 20], P=[2, 0, 0, 0.5], k=0, mode='mol', mc=0.5, strict=None)),
               'am ' + j(dict(n=2, R=[0, 4], P=[50, 0.125], k=0, mode='mol', mc=0.5, strict=None))]),
+        # one multi_stream holder reused by successive lle / vle calls (seeded/C20-1)
+        Case(['lle ' + j(dict(n=5, feed=[20, 1, 0, 0, 20], holder=1, tc=4, eff=1.0, top0=None, bot0=None)),
+              'lle ' + j(dict(n=5, feed=[5, 3, 0, 0, 30], holder=1, tc=4, eff=0.75, top0=None, bot0=None)),
+              'lle ' + j(dict(n=5, feed=[50, 0.5, 0, 0, 2], holder=1, tc=None, eff=1.0, top0=[1, 1, 1, 1, 1], bot0=None))]),
+        Case(['vle ' + j(dict(n=3, feed=[20, 20, 1], holder=1, holder0=[[5, 5, 5], [1, 2, 3]], spec=dict(V=0.5, P=101325.0), top0=None, bot0=None)),
+              'vle ' + j(dict(n=3, feed=[5, 30, 3], holder=1, spec=dict(T=360.0, P=101325.0), top0=None, bot0=[1, 1, 1]))]),
         Case(['ms ' + j(dict(n=2, ins=[[20, 5], [15, 5]], split=[0.75, 0.75], scalar=1, top0=[1, 2], bot0=[3, 4])),
               'ps ' + j(dict(n=2, phases='gl', rows=[[1, 2], [3, 4]], nout=2, outs0=[[9, 9], [8, 8]])),
               'cs ' + j(dict(n=2, a=[1, 0], b=[3, 0])),
